@@ -22,7 +22,7 @@ func checkC15(c *Ctx) {
 		"(C15.const) every imported name - import-all and selective - is bound through DeclareExternalElement with the exporting module (read-only, and calls run in the home module), and DeclareExternalValue declares a constant; " +
 		"(C15.missing) a missing library / module source is an error return; (C15.edge) every path through the custom-module branch that reaches the cycle check has recorded the edge importer->imported (module allocation or AddDependency), " +
 		"and the graph primitives record an edge on every path (no path from entry to return without the append); a detected cycle returns ModuleCircularDependency; (C15.exports) only method and type declarations (and library registration) add export values; " +
-		"(C15.path) the file finder builds root dir + path parts + \".zn\". (C15.home) every NewFunctionCallFrame in the evaluator names the callee's own module, never vm.GetCurrentModule() evaluated at call time; the cycle test has no path answering no-cycle before searching the graph. NOT decided: that an imported method sees its home module's other symbols (run-time scope history; known to fail for same-module siblings, see DESIGN.md), the DFS itself (baseline tests), exhaustive graphs."
+		"(C15.path) the file finder builds root dir + path parts + \".zn\". (C15.home) every NewFunctionCallFrame in the evaluator names the callee's own module, never vm.GetCurrentModule() evaluated at call time; the cycle test has no path answering no-cycle before searching the graph. externalRefs is written under localCount-1 after the declaration; VM.CheckDepedency gives no answer for a known module before the cycle search. NOT decided: that an imported method sees its home module's other symbols (run-time scope history; known to fail for same-module siblings, see DESIGN.md), the DFS itself (baseline tests), exhaustive graphs."
 	R.Assumptions = []string{"checkCircularDepedencyDFS is a correct cycle test (7 baseline cases)", "path/filepath.Join semantics"}
 	u := c.Core()
 	u.buildSSA()
@@ -34,16 +34,21 @@ func checkC15(c *Ctx) {
 	}
 	pos := u.pos(f.Pos())
 	// ---- C15.once
-	execs := u.callsNamed(f, "pkg/exec.execAnotherModule")
-	finds := u.callsNamed(f, "pkg/runtime.VM.FindModuleByName")
-	ok := len(execs) == 1 && len(finds) >= 1
+	// the import statement's implementation: the function itself and the helpers it is split into
+	fam := family(f, 2)
+	fo, execs, nExecs := siteIn(u, fam, "pkg/exec.execAnotherModule")
+	var finds []ssa.CallInstruction
+	if fo != nil {
+		finds = u.callsNamed(fo, "pkg/runtime.VM.FindModuleByName")
+	}
+	ok := nExecs == 1 && len(finds) >= 1
 	if ok {
 		ok = false
-		for _, t := range nilTests(f) {
+		for _, t := range nilTests(fo) {
 			for _, fm := range finds {
 				if flowsFrom(t.X, func(v ssa.Value) bool { return v == fm.Value() }) {
 					// the execution is reachable only through the 'not loaded' edge
-					if reachableAvoidingE(f.Blocks[0], 0, func(x ssa.Instruction) bool { return x == ssa.Instruction(execs[0]) }, nil, nil, map[cfgEdge]bool{{t.If.Block(), t.OnNil}: true}) == nil {
+					if reachableAvoidingE(fo.Blocks[0], 0, func(x ssa.Instruction) bool { return x == ssa.Instruction(execs[0]) }, nil, nil, map[cfgEdge]bool{{t.If.Block(), t.OnNil}: true}) == nil {
 						ok = true
 					}
 				}
@@ -87,33 +92,35 @@ func checkC15(c *Ctx) {
 
 	// ---- C15.const
 	nDecl := 0
-	for _, in := range instrsOf(f) {
-		call, isC := in.(ssa.CallInstruction)
-		if !isC {
-			continue
-		}
-		n := u.callName(call)
-		if n != "pkg/runtime.VM.DeclareElement" && n != "pkg/runtime.VM.DeclareConstElement" && n != "pkg/runtime.VM.DeclareExternalElement" {
-			continue
-		}
-		nDecl++
-		key := "pkg/exec.evalImportStmt:" + siteName(u, f, call)
-		okD := n == "pkg/runtime.VM.DeclareExternalElement"
-		if okD {
-			// the module argument is the imported module (phi of AllocateModule / FindModuleByName / execAnotherModule results)
-			okD = flowsFrom(call.Common().Args[3], func(v ssa.Value) bool {
-				cv, isCV := v.(*ssa.Call)
-				if !isCV {
+	for _, fd := range fam {
+		for _, in := range instrsOf(fd) {
+			call, isC := in.(ssa.CallInstruction)
+			if !isC {
+				continue
+			}
+			n := u.callName(call)
+			if n != "pkg/runtime.VM.DeclareElement" && n != "pkg/runtime.VM.DeclareConstElement" && n != "pkg/runtime.VM.DeclareExternalElement" {
+				continue
+			}
+			nDecl++
+			key := "pkg/exec.evalImportStmt:" + siteName(u, fd, call)
+			okD := n == "pkg/runtime.VM.DeclareExternalElement"
+			if okD {
+				// the module argument is the imported module (phi of AllocateModule / FindModuleByName / execAnotherModule results)
+				okD = flowsFromIP(u, call.Common().Args[3], 3, func(v ssa.Value) bool {
+					cv, isCV := v.(*ssa.Call)
+					if !isCV {
+						return false
+					}
+					switch u.callName(cv) {
+					case "pkg/runtime.VM.AllocateModule", "pkg/runtime.VM.FindModuleByName", "pkg/exec.execAnotherModule":
+						return true
+					}
 					return false
-				}
-				switch u.callName(cv) {
-				case "pkg/runtime.VM.AllocateModule", "pkg/runtime.VM.FindModuleByName", "pkg/exec.execAnotherModule":
-					return true
-				}
-				return false
-			})
+				})
+			}
+			R.check(okD, "C15.const", key, u.pos(call.Pos()), "imported name is bound read-only together with its home module", "an imported name is bound without its home module (not through DeclareExternalElement): the imported method would run in the importer's module context")
 		}
-		R.check(okD, "C15.const", key, u.pos(call.Pos()), "imported name is bound read-only together with its home module", "an imported name is bound without its home module (not through DeclareExternalElement): the imported method would run in the importer's module context")
 	}
 	if nDecl < 2 {
 		R.viol("C15.const", "pkg/exec.evalImportStmt:declares", pos, "expected the import-all and the selective binding sites")
@@ -137,6 +144,11 @@ func checkC15(c *Ctx) {
 		if g == nil {
 			R.lost("C15.missing", "pkg/exec."+m.fn)
 			continue
+		}
+		if m.callee != "" {
+			if gs, _, _ := siteIn(u, family(g, 2), m.callee); gs != nil {
+				g = gs
+			}
 		}
 		okM := false
 		for _, in := range instrsOf(g) {
@@ -184,9 +196,10 @@ func checkC15(c *Ctx) {
 	}
 
 	// ---- C15.edge
-	checks := u.callsNamed(f, "pkg/runtime.VM.CheckDepedency")
-	okE := len(checks) == 1
+	fe, checks, nChecks := siteIn(u, fam, "pkg/runtime.VM.CheckDepedency")
+	okE := nChecks == 1
 	if okE {
+		f := fe
 		rec := func(x ssa.Instruction) bool {
 			return isCallTo(u, x, "pkg/exec.execAnotherModule", "pkg/runtime.VM.AddDependency")
 		}
@@ -389,6 +402,9 @@ func checkC15(c *Ctx) {
 
 	// ---- C15.exports
 	allowed := map[string]bool{"pkg/exec.evalClassDeclareStmt": true, "pkg/exec.evalFunctionDeclareStmt": true, "pkg/exec.evalImportStmt": true}
+	for h := range helpersOfAllowed(u, corePkgs, func(n string) bool { return allowed[n] }) {
+		allowed[h] = true
+	}
 	n := 0
 	for _, rel := range corePkgs {
 		for g, cs := range u.funcsCalling([]string{rel}, "pkg/runtime.Module.AddExportValue") {
@@ -403,7 +419,7 @@ func checkC15(c *Ctx) {
 	// ---- C15.path
 	if g := u.ssaFunc("pkg/exec", "Interpreter.LoadFile"); g != nil {
 		okP := false
-		for _, a := range g.AnonFuncs {
+		for _, a := range family(g, 1)[1:] {
 			joins := u.callsNamed(a, "path/filepath.Join")
 			hasExt := false
 			for _, in := range instrsOf(a) {
@@ -440,7 +456,7 @@ func checkC17(c *Ctx) {
 		"(C17.runeerror) the comparison of that result with utf8.RuneError is refined by the returned size (size 1 = invalid byte, size 3 = the legitimate character U+FFFD) and utf8.FullRune tells an incomplete tail from an invalid byte; " +
 		"(C17.reject) on the invalid-byte edge the function returns a non-nil error, and both ReadAll implementations turn an undecoded remainder at end of input into an error; (C17.carry) the remainder returned by the decoder is stored and " +
 		"prepended by the next read (chunk-boundary invariance); (C17.bom) the byte-order mark is removed only on the first read: the first-read flag is set on every path through the first read, not only when a BOM was found; " +
-		"(C17.loop) ReadAll's loop ends only on an empty block or an error. (C17.propagate) after every call of the decoder or of a module-source finder a normal return is reachable only over the nil edge of a test of that error (io.EOF excepted) or by returning an error. NOT decided: equality of the decoded text with the file for all inputs (follows from the above plus utf8.DecodeRune's contract, which is trusted)."
+		"(C17.loop) ReadAll's loop ends only on an empty block or an error. (C17.propagate) after every call of the decoder or of a module-source finder a normal return is reachable only over the nil edge of a test of that error (io.EOF excepted) or by returning an error. (C17.api) the block-wise Read is not called outside pkg/io (whole sources go through ReadAll) and the stream's reader is the opened file itself (optionally buffered). NOT decided: equality of the decoded text with the file for all inputs (follows from the above plus utf8.DecodeRune's contract, which is trusted)."
 	R.Assumptions = []string{"unicode/utf8.DecodeRune / FullRune contracts", "os.File.Read returns 0 bytes only at end of file"}
 	u := c.Core()
 	u.buildSSA()
